@@ -5,7 +5,7 @@ import "testing"
 func c04Params() GenParams {
 	return GenParams{RecreatePct: 15, MinOps: 4, MaxOps: 40, WKV: 2, WCreate: 3, WDrop: 1, WAdd: 10, WBatch: 4, WImport: 1, WDel: 6, WMeta: 4, WReinforce: 2, WEvolve: 2,
 		WLink: 3, WUnlink: 2, WConfig: 1, WAutoLinks: 1, WSnapshot: 1, WRewrite: 1, WCompress: 1, WMaint: 4, WFlush: 0, WRestart: 1,
-		InvalidPct: 8, AllowInt8: true, AllowMemory: true, AllowAutoLink: true, AllowText: true, SmallEfC: true, BigBatch: true, NullMeta: true}
+		InvalidPct: 8, AllowInt8: true, AllowMemory: true, AllowAutoLink: true, AllowText: true, SmallEfC: true, BigBatch: true, NullMeta: true, ReplacePct: 20}
 }
 
 func TestVerif_C04_model(t *testing.T) {
